@@ -121,14 +121,51 @@ def drain(g):
     return list(g)
 
 
+class GenEq:
+    """native stand-in for a lazy generator value: equal to another generator iff both drain to the same outcome"""
+
+    def __init__(self, qualname, args):
+        self.qualname, self.args = qualname, args
+
+    def _make(self):
+        import importlib
+        parts = self.qualname.split('.')
+        mod = importlib.import_module('.'.join(parts[:2]))
+        obj = mod
+        for p in parts[2:]:
+            obj = getattr(obj, p)
+        return obj(*self.args)
+
+    @staticmethod
+    def _drain(g):
+        out = []
+        try:
+            for x in g:
+                out.append(x)
+            return (out, None)
+        except Exception as e:
+            return (out, type(e).__name__)
+
+    def __iter__(self):
+        return iter(self._make())
+
+    def __eq__(self, other):
+        return self._drain(self._make()) == self._drain(other._make() if isinstance(other, GenEq) else other)
+
+    def __hash__(self):
+        return 0
+
+
 def mkgen(qualname, *args):
-    import importlib
-    parts = qualname.split('.')
-    mod = importlib.import_module('.'.join(parts[:2]))
-    obj = mod
-    for p in parts[2:]:
-        obj = getattr(obj, p)
-    return obj(*args)
+    return GenEq(qualname, args)
+
+
+def forall_items(xs, pred):
+    return all(pred(x) for x in xs)
+
+
+def time_read(k):
+    return 0.0
 
 
 # ---- independent (protocol-guide) message encoder used by native harness expressions and input generation
